@@ -401,7 +401,7 @@ static ivec_t do_hash(const words_t &strs, const ivec_t &pos, const ivec_t &asso
         int t = s.length();
         for(auto p:pos)
             if(p < (int)s.size())
-                t += assoc[s[p]];
+                t += assoc[(unsigned char)s[p]];
         ivec.push_back(t);
     }
     return ivec;
@@ -411,10 +411,12 @@ static ivec_t find_assoc(const words_t &strs, const ivec_t &pos)
 {
     ivec_t assoc;
     int current_dups = strs.size();
-    int N = 127;
-    std::vector<char> useful_chars;
+    //one entry per value of an (unsigned) char: Ports::dispatch indexes this
+    //table with bytes of the incoming message
+    int N = 256;
+    std::vector<unsigned char> useful_chars;
     for(auto w:strs)
-        for(auto c:w)
+        for(unsigned char c:w)
             if(!has(useful_chars, c))
                 useful_chars.push_back(c);
 
@@ -624,7 +626,7 @@ void Ports::dispatch(const char *m, rtosc::RtData &d, bool base_dispatch) const
             int t = len;
             for(auto p:impl->pos)
                 if(p < (int)len)
-                    t += impl->assoc[m[p]];
+                    t += impl->assoc[(unsigned char)m[p]];
             if(t >= (int)impl->remap.size() && !default_handler)
                 return;
             else if(t >= (int)impl->remap.size() && default_handler) {
